@@ -22,7 +22,7 @@ import (
 	"verif/internal/wx"
 )
 
-var suite = vrt.NewSuite("C13", "(path recipe, data tree, operation, value | modifier): Set/SetOne/Del/DelOne/Remove/RemoveOne/Modify/ModifyOne with the last fragment drawn from what each operation admits (plus a share of inadmissible ones for the error path) on simple and gen data. Oracle: S = reference selection of the path on a deep copy taken before; for Del/Remove/Modify the expected tree is computed exactly by the reference (members deleted, array elements nulled by Del and removed simultaneously by Remove, modifier applied at each location) and must be canon-equal to the outcome; for Set every previously selected location holds the value, Get(path) afterwards returns only the value, and the frame holds (every pre-existing scalar outside S and its descendants unchanged, no pre-existing container loses members; also after an error); *One forms must equal the expected tree for exactly one member of S; impossible requests must be errors, never panics; gen data must give the same outcome. Non-trivial = S non-empty and a location outside S and its descendants exists; distinct = distinct (op, path, data, value)")
+var suite = vrt.NewSuite("C13", "(path recipe, data tree, operation, value | modifier): Set/SetOne/Del/DelOne/Remove/RemoveOne/Modify/ModifyOne with the last fragment drawn from what each operation admits (plus a share of inadmissible ones for the error path) on simple and gen data. Oracle: S = reference selection of the path on a deep copy taken before; for Del/Remove/Modify the expected tree is computed exactly by the reference (members deleted, array elements nulled by Del and removed simultaneously by Remove, modifier applied at each location) and must be canon-equal to the outcome; for Set every previously selected location holds the value, Get(path) afterwards returns only the value, and the frame holds (every pre-existing scalar outside S and its descendants unchanged, no pre-existing container loses members; also after an error); *One forms must equal the expected tree for exactly one member of S; impossible requests must be errors, never panics; gen data must give the same outcome (not compared for a *One form whose selection passes through a map with several members); plus an exhaustive matrix of slices x array lengths x operations x positions. Non-trivial = S non-empty and a location outside S and its descendants exists; distinct = distinct (op, path, data, value)")
 
 type Case struct {
 	Op   string   `json:"op"` // set setone del delone remove removeone modify modifyone
